@@ -33,7 +33,7 @@ def tasks(tier):
 
 
 def conformance(tier):
-    return [dict(name="native:c05", argv=["seq_suite.py", "c05"], violation_on_fail=True)]
+    return [dict(name="native:c05", argv=["seq_suite.py", "c05"], violation_on_fail=True), dict(name="native:c08", argv=["c08_graphs.py"], violation_on_fail=True)]
 
 
 def concretise(obname, detail, task_result, native):
